@@ -38,6 +38,8 @@ def canon(item):
         return {'prim': 'Left', 'args': [canon(item.items[0])]}
     if isinstance(item, T.ListType):
         return [canon(x) for x in item.items]
+    if isinstance(item, T.SetType):
+        return [canon(x) for x in item.items]
     if isinstance(item, T.MapType):
         return [{'prim': 'Elt', 'args': [canon(k), canon(v)]} for k, v in item.items]
     raise TypeError(type(item).__name__)
@@ -99,6 +101,8 @@ def py_repr(ty, val):
         return f"(_ + {py_repr(ty[2], val['args'][0])})"
     if p == 'list':
         return '[' + ', '.join(py_repr(ty[1], x) for x in val) + ']'
+    if p == 'set':
+        return '{' + ', '.join(py_repr(ty[1], x) for x in val) + '}'
     if p == 'map':
         return '{' + ', '.join(f"{py_repr(ty[1], e['args'][0])}: {py_repr(ty[2], e['args'][1])}" for e in val) + '}'
     if p == 'lambda':
@@ -115,6 +119,6 @@ def truthy(ty, val):
         return len(val['string']) > 0
     if p == 'bytes':
         return len(val['bytes']) > 0
-    if p in ('list', 'map'):
+    if p in ('list', 'map', 'set'):
         return len(val) > 0
     return True
